@@ -966,7 +966,9 @@ def gen_sources(seed, mode="loop"):
             ops += [("fd_write", hup_u)] * n_ + [("fd_hup", hup_u)]
             pend[hup_u] = 99                    # no more writes
             hup[hup_u] = conserve.pop(hup_u)
-        if hup_u is not None and k == hup_step + 4:
+        # up to 5 tokens can be pending at hang-up and one is drained per loop iteration: deregister (the hang-up keeps the
+        # descriptor readable for ever) only after 8 more iterations
+        if hup_u is not None and k == hup_step + 8:
             ops.append(("fd_dereg", hup[hup_u], hup_u))
         if shape == "wide" and k == 1:
             for uu in conserve:
@@ -998,8 +1000,8 @@ def gen_sources(seed, mode="loop"):
             else:
                 ops.append(("sleep", r.choice([200, 1000, 2500])))
         steps.append(ops)
-    if hup_u is not None and hup_step + 4 >= nsteps:
-        steps += [[] for _ in range(hup_step + 5 - nsteps)] + [[("fd_dereg", hup[hup_u], hup_u)]]
+    if hup_u is not None and hup_step + 8 >= nsteps:
+        steps += [[] for _ in range(hup_step + 9 - nsteps)] + [[("fd_dereg", hup[hup_u], hup_u)]]
     sc.meta["hup"] = hup if shape != "quit_early" else {}
     if shape != "quit_early":
         steps += [[("sleep", 300)] if i % 2 else [] for i in range(8)]
